@@ -1,6 +1,414 @@
-use crate::util::Opts;
+//! sched: adaptive random walks over the whole public modification API of Schedule.
+//!
+//! Input lines: {"name", "input", "steps", "seed"}. For each instance the walk starts from
+//! Schedule::empty. One `op` event per call: name, arguments, ok / error / panic, returned ids,
+//! the projection of the result, and a digest of the projection of the *input* schedule taken
+//! before and after the call (frame condition "the input value is untouched").
+//! Arguments are chosen from the implementation's current state so that long histories stay
+//! meaningful; whether a call had to succeed is decided by the specification, not here.
 
-pub fn run(_opts: &Opts) -> i32 {
-    eprintln!("not implemented yet");
-    2
+use std::sync::Arc;
+
+use im::HashMap as ImHashMap;
+use model::base_types::{NodeIdx, VehicleIdx, VehicleTypeIdx};
+use model::json_serialisation::load_rolling_stock_problem_instance_from_json;
+use model::network::Network;
+use serde_json::{json, Value};
+use solution::path::Path;
+use solution::segment::Segment;
+use solution::transition::Transition;
+use solution::Schedule;
+
+use crate::netdump::nid;
+use crate::util::{guarded, read_lines, Opts, Out, Rng};
+
+pub fn digest(v: &Value) -> String {
+    // FNV-1a over the serialised projection
+    let s = v.to_string();
+    let mut h: u64 = 0xcbf29ce484222325;
+    for b in s.as_bytes() {
+        h ^= *b as u64;
+        h = h.wrapping_mul(0x100000001b3);
+    }
+    format!("{:016x}", h)
+}
+
+fn type_id(nw: &Network, vt: VehicleTypeIdx) -> String {
+    nw.vehicle_types().get(vt).unwrap().id().clone()
+}
+
+pub fn ids(nw: &Network, nodes: &[NodeIdx]) -> Vec<String> {
+    nodes.iter().map(|&n| nid(nw, n)).collect()
+}
+
+fn tour_nodes(s: &Schedule, v: VehicleIdx) -> Vec<NodeIdx> {
+    s.tour_of(v).unwrap().all_nodes_iter().collect()
+}
+
+/// a random node sequence that the implementation considers a path for the type
+fn random_path(nw: &Arc<Network>, vt: VehicleTypeIdx, rng: &mut Rng, depots: bool) -> Vec<NodeIdx> {
+    let cands: Vec<NodeIdx> = nw
+        .nodes_of_vehicle_type_sorted_by_start(vt)
+        .filter(|&n| !nw.node(n).is_depot())
+        .collect();
+    let mut path = Vec::new();
+    if cands.is_empty() {
+        return path;
+    }
+    let mut cur = cands[rng.below(cands.len())];
+    path.push(cur);
+    let len = 1 + rng.below(4);
+    while path.len() < len {
+        let next: Vec<NodeIdx> = cands
+            .iter()
+            .copied()
+            .filter(|&m| nw.can_reach(cur, m))
+            .take(4)
+            .collect();
+        match rng.pick(&next) {
+            Some(&m) => {
+                cur = m;
+                path.push(m);
+            }
+            None => break,
+        }
+    }
+    if depots {
+        if rng.chance(1, 3) {
+            let sds: Vec<NodeIdx> = nw.start_depot_nodes().collect();
+            path.insert(0, *rng.pick(&sds).unwrap());
+        }
+        if rng.chance(1, 3) {
+            let eds: Vec<NodeIdx> = nw.end_depot_nodes().collect();
+            path.push(*rng.pick(&eds).unwrap());
+        }
+    }
+    path
+}
+
+fn random_segment(s: &Schedule, v: VehicleIdx, rng: &mut Rng, allow_depots: bool) -> (NodeIdx, NodeIdx) {
+    let nodes = tour_nodes(s, v);
+    let real = s.is_vehicle(v);
+    let (lo, hi) = if real && !(allow_depots && rng.chance(1, 4)) {
+        (1, nodes.len() - 2)
+    } else {
+        (0, nodes.len() - 1)
+    };
+    let i = lo + rng.below(hi - lo + 1);
+    let mut j = i + rng.below((hi - i + 1).min(3));
+    if real && i == j && (i == 0 || i == nodes.len() - 1) {
+        // a depot alone is not a segment: take the whole tour instead
+        return (nodes[0], nodes[nodes.len() - 1]);
+    }
+    if real && i == 0 && j < nodes.len() - 1 && rng.chance(1, 2) {
+        j = nodes.len() - 1;
+    }
+    if real && rng.chance(1, 8) {
+        // whole tour including depots
+        return (nodes[0], nodes[nodes.len() - 1]);
+    }
+    (nodes[i], nodes[j])
+}
+
+fn cycles_json(t: &Transition) -> Value {
+    json!(t
+        .cycles_iter()
+        .map(|c| c.iter().map(|v| v.to_string()).collect::<Vec<_>>())
+        .collect::<Vec<_>>())
+}
+
+pub struct Walker {
+    pub nw: Arc<Network>,
+    pub cur: Schedule,
+    pub rng: Rng,
+}
+
+pub enum CallResult {
+    Sched(Schedule, Value),
+    Failed(String),
+}
+
+impl Walker {
+    fn reals(&self) -> Vec<VehicleIdx> {
+        self.cur.vehicles_iter_all().collect()
+    }
+    fn dummies(&self) -> Vec<VehicleIdx> {
+        self.cur.dummy_iter().collect()
+    }
+    fn types(&self) -> Vec<VehicleTypeIdx> {
+        self.nw.vehicle_types().iter().collect()
+    }
+
+    /// choose the next call: (name, args as json, closure result)
+    pub fn step(&mut self) -> Option<(String, Value, Result<CallResult, String>)> {
+        let reals = self.reals();
+        let dummies = self.dummies();
+        let types = self.types();
+        let nw = self.nw.clone();
+        let s = self.cur.clone();
+        let mut all: Vec<VehicleIdx> = reals.clone();
+        all.extend(dummies.iter().copied());
+        let r = self.rng.below(100);
+        let few = reals.len() < 2;
+        // weights
+        // "valid arguments" never exhaust the artificial overflow depot (its capacity stands for
+        // infinity): do not spawn more vehicles than it could host
+        let overflow = nw.overflow_depot_idxs().0;
+        let room = |vt: VehicleTypeIdx| reals.len() + 1 < nw.capacity_of(overflow, vt) as usize;
+        if r < 18 || (few && r < 60) {
+            let vt = *self.rng.pick(&types)?;
+            if !room(vt) {
+                return None;
+            }
+            let path = random_path(&nw, vt, &mut self.rng, true);
+            if path.is_empty() {
+                return None;
+            }
+            let args = json!({"ty": type_id(&nw, vt), "path": ids(&nw, &path)});
+            let res = guarded(|| match s.spawn_vehicle_for_path(vt, path) {
+                Ok((sch, v)) => CallResult::Sched(sch, json!({"id": v.to_string()})),
+                Err(e) => CallResult::Failed(e),
+            });
+            return Some(("spawn_vehicle_for_path".into(), args, res));
+        }
+        if r < 24 {
+            let d = *self.rng.pick(&dummies)?;
+            // mostly the right type
+            let first = tour_nodes(&s, d)[0];
+            let vt = if self.rng.chance(5, 6) && nw.node(first).is_service() {
+                nw.vehicle_type_for(first)
+            } else {
+                *self.rng.pick(&types)?
+            };
+            if !room(vt) {
+                return None;
+            }
+            let args = json!({"dummy": d.to_string(), "ty": type_id(&nw, vt)});
+            let res = guarded(|| match s.spawn_vehicle_to_replace_dummy_tour(d, vt) {
+                Ok((sch, v)) => CallResult::Sched(sch, json!({"id": v.to_string()})),
+                Err(e) => CallResult::Failed(e),
+            });
+            return Some(("spawn_vehicle_to_replace_dummy_tour".into(), args, res));
+        }
+        if r < 29 {
+            let v = *self.rng.pick(&reals)?;
+            let args = json!({"v": v.to_string()});
+            let res = guarded(|| match s.replace_vehicle_by_dummy(v) {
+                Ok(sch) => CallResult::Sched(sch, json!({})),
+                Err(e) => CallResult::Failed(e),
+            });
+            return Some(("replace_vehicle_by_dummy".into(), args, res));
+        }
+        if r < 41 {
+            let v = *self.rng.pick(&reals)?;
+            let vt = s.vehicle_type_of(v).unwrap();
+            let vt_path = if self.rng.chance(1, 12) { *self.rng.pick(&types)? } else { vt };
+            let nodes = random_path(&nw, vt_path, &mut self.rng, true);
+            if nodes.is_empty() {
+                return None;
+            }
+            let args = json!({"v": v.to_string(), "path": ids(&nw, &nodes)});
+            let res = guarded(|| {
+                let path = match Path::new(nodes, nw.clone()) {
+                    Ok(Some(p)) => p,
+                    Ok(None) => return CallResult::Failed("no path".into()),
+                    Err(e) => return CallResult::Failed(e),
+                };
+                match s.add_path_to_vehicle_tour(v, path) {
+                    Ok((sch, removed)) => CallResult::Sched(
+                        sch,
+                        json!({"removed": removed.map(|p| ids(&nw, &p.iter().collect::<Vec<_>>())).unwrap_or_default()}),
+                    ),
+                    Err(e) => CallResult::Failed(e),
+                }
+            });
+            return Some(("add_path_to_vehicle_tour".into(), args, res));
+        }
+        if r < 51 {
+            let v = *self.rng.pick(&reals)?;
+            let (a, b) = random_segment(&s, v, &mut self.rng, true);
+            let args = json!({"v": v.to_string(), "s": nid(&nw, a), "e": nid(&nw, b)});
+            let res = guarded(|| match s.remove_segment(Segment::new(a, b), v) {
+                Ok(sch) => CallResult::Sched(sch, json!({})),
+                Err(e) => CallResult::Failed(e),
+            });
+            return Some(("remove_segment".into(), args, res));
+        }
+        if r < 77 {
+            if all.len() < 2 {
+                return None;
+            }
+            let p = *self.rng.pick(&all)?;
+            let mut rcv = *self.rng.pick(&all)?;
+            // prefer receivers of the same type as the provider
+            for _ in 0..4 {
+                let same = match (s.vehicle_type_of(p), s.vehicle_type_of(rcv)) {
+                    (Ok(a), Ok(b)) => a == b,
+                    _ => true,
+                };
+                if rcv != p && same {
+                    break;
+                }
+                rcv = *self.rng.pick(&all)?;
+            }
+            if rcv == p {
+                return None;
+            }
+            let (a, b) = random_segment(&s, p, &mut self.rng, true);
+            let args = json!({"p": p.to_string(), "r": rcv.to_string(), "s": nid(&nw, a), "e": nid(&nw, b)});
+            if r < 64 {
+                let res = guarded(|| match s.override_reassign(Segment::new(a, b), p, rcv) {
+                    Ok((sch, d)) => CallResult::Sched(
+                        sch,
+                        json!({"dummy": d.map(|x| x.to_string()).unwrap_or_default()}),
+                    ),
+                    Err(e) => CallResult::Failed(e),
+                });
+                return Some(("override_reassign".into(), args, res));
+            } else {
+                let res = guarded(|| match s.fit_reassign(Segment::new(a, b), p, rcv) {
+                    Ok(sch) => CallResult::Sched(sch, json!({})),
+                    Err(e) => CallResult::Failed(e),
+                });
+                return Some(("fit_reassign".into(), args, res));
+            }
+        }
+        if r < 84 {
+            if reals.is_empty() {
+                return None;
+            }
+            let subset: Option<Vec<VehicleIdx>> = if self.rng.chance(1, 3) {
+                None
+            } else {
+                let mut vs: Vec<VehicleIdx> = reals.iter().copied().filter(|_| self.rng.chance(1, 2)).collect();
+                if vs.is_empty() {
+                    vs.push(reals[0]);
+                }
+                Some(vs)
+            };
+            let args = json!({"all": subset.is_none(),
+                "vs": subset.clone().unwrap_or_default().iter().map(|v| v.to_string()).collect::<Vec<_>>()});
+            let res = guarded(|| CallResult::Sched(s.improve_depots(subset), json!({})));
+            return Some(("improve_depots".into(), args, res));
+        }
+        if r < 88 {
+            let res = guarded(|| match s.reassign_end_depots_greedily() {
+                Ok(sch) => CallResult::Sched(sch, json!({})),
+                Err(e) => CallResult::Failed(e),
+            });
+            return Some(("reassign_end_depots_greedily".into(), json!({}), res));
+        }
+        if r < 92 {
+            let res = guarded(|| CallResult::Sched(s.reassign_end_depots_consistent_with_transitions(), json!({})));
+            return Some(("reassign_end_depots_consistent_with_transitions".into(), json!({}), res));
+        }
+        if r < 96 {
+            let subset: Option<Vec<VehicleTypeIdx>> = if self.rng.chance(1, 2) {
+                None
+            } else {
+                Some(vec![*self.rng.pick(&types)?])
+            };
+            let args = json!({"all": subset.is_none(),
+                "tys": subset.clone().unwrap_or_default().iter().map(|&t| type_id(&nw, t)).collect::<Vec<_>>()});
+            let res = guarded(|| CallResult::Sched(s.recompute_transitions_for(subset), json!({})));
+            return Some(("recompute_transitions_for".into(), args, res));
+        }
+        // set_next_day_transitions with transitions over exactly the schedule's vehicles
+        let mut moves = Vec::new();
+        for &vt in types.iter() {
+            let vs: Vec<VehicleIdx> = s.vehicles_iter(vt).collect();
+            let k = self.rng.below(3);
+            for _ in 0..k {
+                if let Some(&v) = self.rng.pick(&vs) {
+                    moves.push((vt, v, self.rng.below(8)));
+                }
+            }
+        }
+        let built = guarded(|| {
+            let mut x: ImHashMap<VehicleTypeIdx, Transition> = ImHashMap::new();
+            for &vt in types.iter() {
+                let vs: Vec<VehicleIdx> = s.vehicles_iter(vt).collect();
+                let mut t = Transition::new_fast(&vs, s.get_tours(), &nw);
+                for (mvt, v, c) in moves.iter() {
+                    if *mvt == vt && t.number_of_cycles() > 0 {
+                        t = t.move_vehicle(*v, c % t.number_of_cycles(), s.get_tours(), &nw);
+                    }
+                }
+                x.insert(vt, t);
+            }
+            x
+        });
+        let x = match built {
+            Ok(x) => x,
+            Err(_) => return None, // building the argument failed: not a call of the operation under test
+        };
+        let args = json!({"x": types.iter().map(|&vt| json!({"ty": type_id(&nw, vt), "cyc": cycles_json(&x[&vt])})).collect::<Vec<_>>()});
+        let res = guarded(|| CallResult::Sched(s.set_next_day_transitions(x), json!({})));
+        Some(("set_next_day_transitions".into(), args, res))
+    }
+}
+
+pub fn run(opts: &Opts) -> i32 {
+    let inputs = read_lines(opts.req("in"));
+    let mut out = Out::create(opts.req("out"));
+    for item in inputs {
+        let name = item["name"].as_str().unwrap_or("?").to_string();
+        let steps = item["steps"].as_u64().unwrap_or(40);
+        let seed = item["seed"].as_u64().unwrap_or(1);
+        let input = item["input"].clone();
+        let nw = match guarded(|| load_rolling_stock_problem_instance_from_json(input)) {
+            Ok(nw) => nw,
+            Err(msg) => {
+                out.emit(&json!({"ev": "loadfail", "name": name, "panic": msg}));
+                continue;
+            }
+        };
+        let start = Schedule::empty(nw.clone());
+        out.emit(&json!({"ev": "init", "name": name, "S": solution::verif::project(&start)}));
+        let mut w = Walker { nw: nw.clone(), cur: start, rng: Rng(seed ^ 0x5bd1e995) };
+        let mut done = 0;
+        let mut attempts = 0;
+        while done < steps && attempts < steps * 4 {
+            attempts += 1;
+            let pre = w.cur.clone();
+            let hb = digest(&solution::verif::project(&pre));
+            let (opname, args, res) = match w.step() {
+                Some(x) => x,
+                None => continue,
+            };
+            let ha = match guarded(|| digest(&solution::verif::project(&pre))) {
+                Ok(h) => h,
+                Err(_) => String::from("projection-panicked"),
+            };
+            done += 1;
+            match res {
+                Ok(CallResult::Sched(sch, ret)) => {
+                    match guarded(|| solution::verif::project(&sch)) {
+                        Ok(proj) => {
+                            out.emit(&json!({"ev": "op", "name": name, "op": opname, "args": args, "ok": true,
+                                "panic": false, "ret": ret, "hb": hb, "ha": ha, "S": proj}));
+                            w.cur = sch;
+                        }
+                        Err(msg) => {
+                            out.emit(&json!({"ev": "op", "name": name, "op": opname, "args": args, "ok": false,
+                                "panic": true, "msg": format!("projection of result panicked: {}", msg), "hb": hb, "ha": ha}));
+                        }
+                    }
+                }
+                Ok(CallResult::Failed(e)) => {
+                    let mut e = e;
+                    e.truncate(160);
+                    out.emit(&json!({"ev": "op", "name": name, "op": opname, "args": args, "ok": false,
+                        "panic": false, "msg": e, "hb": hb, "ha": ha}));
+                }
+                Err(msg) => {
+                    out.emit(&json!({"ev": "op", "name": name, "op": opname, "args": args, "ok": false,
+                        "panic": true, "msg": msg, "hb": hb, "ha": ha}));
+                }
+            }
+        }
+        out.flush();
+    }
+    out.flush();
+    0
 }
